@@ -26,7 +26,7 @@ import (
 )
 
 type Act struct {
-	K string `json:"k"` // client, client-traffic, client-close, addconn, dial, dial-refused, backlog, sendfile, backlog-sendfile, fardeadline, serverclose, ws, ws-transfer, ws-traffic, ws-transfer-traffic
+	K string `json:"k"` // client, client-traffic, client-close, addconn, dial, dial-refused, backlog, sendfile, backlog-sendfile, fardeadline, serverclose, overflow, write-after-reset, ws, ws-transfer, ws-traffic, ws-transfer-traffic
 }
 
 type Case struct {
@@ -135,7 +135,8 @@ func runCase(c Case) vlib.Result {
 	}
 	switch c.Kind {
 	case "core":
-		conf := nbio.Config{Network: "tcp", Addrs: addrList, NPoller: c.NPoller, AsyncReadInPoller: c.Async}
+		// a write-buffer bound, so that the "overflow" act can make a Write fail with a hard error
+		conf := nbio.Config{Network: "tcp", Addrs: addrList, NPoller: c.NPoller, AsyncReadInPoller: c.Async, MaxWriteBufferSize: 4 << 20}
 		vlib.ApplyMode(&conf, c.Mode)
 		g := nbio.NewEngine(conf)
 		g.OnOpen(func(conn *nbio.Conn) {
@@ -258,7 +259,7 @@ func runCase(c Case) vlib.Result {
 					}
 				}
 				_ = p.SetDeadline(time.Time{})
-			case "addconn", "backlog", "sendfile", "backlog-sendfile", "fardeadline", "serverclose":
+			case "addconn", "backlog", "sendfile", "backlog-sendfile", "fardeadline", "serverclose", "overflow", "write-after-reset":
 				if core == nil {
 					continue
 				}
@@ -285,6 +286,24 @@ func runCase(c Case) vlib.Result {
 						_, _ = nbc.Sendfile(f, 0)
 						_ = f.Close()
 					}
+				case "overflow":
+					// a Write that fails with a hard error (beyond the write-buffer bound): the connection is
+					// ended by the failing call itself, in the middle of the history
+					_, _ = nbc.Write(make([]byte, 5<<20))
+					openAtStop--
+				case "write-after-reset":
+					// the peer resets, then the application writes: EPIPE / ECONNRESET in the direct write path
+					if tc, ok := p.(*net.TCPConn); ok {
+						_ = tc.SetLinger(0)
+					}
+					_ = p.Close()
+					for i := 0; i < 3; i++ {
+						if _, err := nbc.Write(make([]byte, 1000)); err != nil {
+							break
+						}
+						time.Sleep(200 * time.Microsecond)
+					}
+					openAtStop--
 				case "fardeadline":
 					_ = nbc.SetDeadline(time.Now().Add(time.Hour))
 				case "serverclose":
@@ -503,7 +522,7 @@ func gen(t *rapid.T) Case {
 	} else {
 		n := rapid.IntRange(0, 8).Draw(t, "nacts")
 		for i := 0; i < n; i++ {
-			c.Acts = append(c.Acts, Act{K: rapid.SampledFrom([]string{"client", "client-traffic", "client-traffic", "client-close", "addconn", "dial", "dial-refused", "backlog", "sendfile", "backlog-sendfile", "fardeadline", "serverclose", "ws", "ws-transfer", "ws-traffic", "ws-transfer-traffic"}).Draw(t, "act")})
+			c.Acts = append(c.Acts, Act{K: rapid.SampledFrom([]string{"client", "client-traffic", "client-traffic", "client-close", "addconn", "dial", "dial-refused", "backlog", "sendfile", "backlog-sendfile", "fardeadline", "serverclose", "overflow", "write-after-reset", "ws", "ws-transfer", "ws-traffic", "ws-transfer-traffic"}).Draw(t, "act")})
 		}
 	}
 	if rapid.IntRange(0, 3).Draw(t, "refuse") == 0 {
